@@ -104,7 +104,7 @@ func (g *gen) scalarText(sc string, ok bool) string {
 	}
 	switch sc {
 	case "str", "c1", "c2", "c3":
-		return []string{"foo", "bar", "", "a b", "x=y", "k:v", "é", "日本", "-", "\"q\"", "a,b", "v%d"}[r.Intn(11)]
+		return []string{"foo", "bar", "", "a b", "x=y", "k:v", "é", "日本", "-", "\"q\"", "a,b", "x\\", "C:\\dir\\", "\\", "a\\b", "v%d"}[r.Intn(15)]
 	case "c0":
 		return []string{"foo", "Bar", "", "a b", "!bang", "é"}[r.Intn(6)]
 	case "bool":
